@@ -44,14 +44,23 @@ def r1_rollback(run, w):
   fn = w.fn("engine.Engine.apply_user_actions")
   cfg = fn.cfg
   p_actions = fn.fi.params()[1]
-  trys = [s for s in fn.node.body if isinstance(s, ast.Try)]
+  lflow = Flow(fn)
+  def applies_user_action(c):
+    """the call that runs one user action: _apply_one_user_action(ua), or its body written in
+    place -- getattr(<x>.user_actions, <name>)(*ua), the bound method possibly held in a local"""
+    if endswith(cname(fn, c), "_apply_one_user_action"):
+      return True
+    ks = lflow.where(c)
+    g = lflow.resolve(c.func, ks[0])[0] if ks else c.func
+    return isinstance(g, ast.Call) and dotted(g.func) == "getattr" and bool(g.args) and \
+        endswith(cname(fn, g.args[0]) or "", "user_actions")
+  trys = [s for s in ast.walk(fn.node) if isinstance(s, ast.Try)]
   main = None
   for t in trys:
-    if any(endswith(cname(fn, c), "_apply_one_user_action") for c in calls_in(t.body)):
+    if any(applies_user_action(c) for c in calls_in(t.body)):
       main = t
   if main is None:
     raise AnalysisError("apply_user_actions: guarded user-action loop not found")
-  lflow = Flow(fn)
   def over_actions(s_):
     ks = lflow.where(s_)
     it = lflow.inline(s_.iter, ks[0], stop=(p_actions,)) if ks else s_.iter
@@ -66,8 +75,8 @@ def r1_rollback(run, w):
                         "region")
   run.ob(R1, fn.qualname, "for user_action in %s: ... _apply_one_user_action" % p_actions,
          "every user action of the bundle is applied inside the guarded region",
-         len(loops) == 1 and any(endswith(cname(fn, c), "_apply_one_user_action")
-                                 for c in calls_in(loops[0].body)), fi=fn.fi, node=main)
+         len(loops) == 1 and any(applies_user_action(c) for c in calls_in(loops[0].body)),
+         fi=fn.fi, node=main)
   # checkpoint variable
   cps = [(n, n.stmt.targets[0].id) for n in cfg.nodes if n.kind == "stmt" and
          isinstance(n.stmt, ast.Assign) and isinstance(n.stmt.targets[0], ast.Name) and
